@@ -222,10 +222,11 @@ def declare(w, decls):
             with w.db.set_perms_for(*[w.ents[i] for i in d['ents']]):
                 kw = {}
                 if len(d['groups']) == 1: kw['group'] = d['groups'][0]
-                elif d['groups']: kw['groups'] = d['groups']
+                elif d['groups']: kw['groups'] = d['groups'] if len(d['excl']) % 2 else ', '.join(d['groups'])     # a list or one 'g1, g2' string
                 if d['roles']: kw['role'] = ' '.join(d['roles'])
                 if d['labels']: kw['labels'] = d['labels']
-                rule = perm(*d['perms'], **kw) if len(d['perms']) != 1 else perm(', '.join(d['perms']), **kw)
+                if len(d['perms']) > 1 and len(d['excl']) % 2 == 0: rule = perm((', ' if d['roles'] else ' ').join(d['perms']), **kw)    # 'view, edit' / 'view edit'
+                else: rule = perm(*d['perms'], **kw) if len(d['perms']) != 1 else perm(', '.join(d['perms']), **kw)
                 bad = 0
                 for x in d['excl']:
                     try: rule.exclude(w.ents[x['e']] if 'e' in x else w.attrs[x['a']])
@@ -793,13 +794,20 @@ def run(ctx):
     for d in singles:
         cases.append(run_case(ctx, w, [d], gen_inputs(w, rng), rng.randrange(5), rng, full_cold=False, order_check=False, kind='single-rule'))
     A_, B_, C_ = w.eid[w.A], w.eid[w.B], w.eid[w.C]
-    def rule(ents, perms, excl=(), groups=()): return {'ents': ents, 'perms': perms, 'groups': list(groups), 'roles': [], 'labels': [], 'excl': list(excl)}
+    def rule(ents, perms, excl=(), groups=(), roles=(), labels=()): return {'ents': ents, 'perms': perms, 'groups': list(groups), 'roles': list(roles), 'labels': list(labels), 'excl': list(excl)}
+    P_ = w.eid[w.P]
     fixed_sets = [
         # A.b viewable, B viewable (through 'edit'), but B.as_ excluded: the schema must not list A.b
         [rule([A_], ['view']), rule([B_], ['edit'], [{'a': w.aid[w.B.as_]}])],
         [rule([B_], ['view']), rule([A_], ['edit'], [{'a': w.aid[w.A.b]}])],
         [rule([B_, C_], ['view'], [{'a': w.aid[w.C.bs]}]), rule([C_], ['edit'], [{'a': w.aid[w.C.bs]}])],
         [rule([A_, B_], ['view']), rule([B_], ['view'], [{'e': A_}])],
+        # the role 'self': a user that IS the entity instance asked about
+        [rule([P_], ['view'], roles=['self'])],
+        [rule([P_], ['edit'], roles=['self'], groups=['g1']), rule([P_], ['view'], roles=['r'])],
+        # labels decide object by object
+        [rule([A_, B_], ['view'], labels=['l'])],
+        [rule([C_], ['view'], labels=['l', 'm']), rule([C_], ['edit'], labels=['m'])],
     ]
     for decls in fixed_sets:
         cases.append(run_case(ctx, w, decls, gen_inputs(w, rng), rng.randrange(5), rng, full_cold=False, order_check=True, kind='fixed-rules'))
